@@ -389,3 +389,46 @@ def c11(tier, seed):
                     "meta": meta, "kkt_states": len(nstate), "samples": [{k: e[k] for k in ("ev", "triu", "n", "m", "p", "cones")} for e in sample(lines, 3) if "cones" in e],
                     "trusted_base": ["TLC", "Csc.tla Canonical", "observer Schur complement"]}
     return res
+
+
+def c15(tier, seed):
+    res = Result("C15", tier, seed, "model_checking")
+    wd = workdir("C15")
+    mc = run_mc("MC_ConeStep.tla", "MC_ConeStep.cfg", workers=8, timeout=900, coverage=False, name="MC_ConeStep")
+    tr, mt = os.path.join(wd, "conestep.ndjson"), os.path.join(wd, "conestep.meta.json")
+    run_vh(["conestep", "--seed", seed, "--tier", tier, "--out", tr, "--meta", mt], timeout=4 * 3600)
+    meta = json.load(open(mt))
+    v = impl_to_spec(res, "C15", "ConeStep.tla", "ConeStep.cfg", tr, "conestep", nshards=12,
+                     keyfn=lambda e: str(e.get("ev")) + ":" + str(e.get("kind", "")) + (":panic" if e.get("ev") == "Panic" else ""))
+    lines = read_ndjson(tr)
+    # branch coverage of the second-order cone case analysis over the exact events (vacuity guard)
+    def branch(x, y):
+        a = y[0] ** 2 - sum(t * t for t in y[1:])
+        b = 2 * (x[0] * y[0] - sum(p * q for p, q in zip(x[1:], y[1:])))
+        c = x[0] ** 2 - sum(t * t for t in x[1:])
+        d = b * b - 4 * a * c
+        if (a > 0 and b > 0) or d < 0:
+            return "no_limit"
+        if a == 0:
+            return "single_root_b_neg" if b < 0 else "single_root_b_nonneg"
+        return "on_boundary" if c == 0 else "two_roots"
+    br = {}
+    for e in lines:
+        if e.get("ev") == "Step" and e.get("kind") == "Soc":
+            for k in (branch(e["s"], e["ds"]), branch(e["z"], e["dz"])):
+                br[k] = br.get(k, 0) + 1
+    for need in ("no_limit", "single_root_b_neg", "single_root_b_nonneg", "two_roots"):
+        if br.get(need, 0) == 0:
+            raise ToolError(f"vacuity guard: SOC branch {need} never exercised")
+    res.coverage = {"states": mc["states"] + v["states"], "transitions": mc["transitions"] + v["transitions"],
+                    "traces_validated_against_impl": v["events"], "evaluations": v["events"],
+                    "distinct_nontrivial": len({json.dumps([e.get("s"), e.get("ds"), e.get("z"), e.get("dz"), e.get("amax")]) for e in lines if e.get("ev") == "Step"}) + meta["backtrack"] + meta["composite"],
+                    "rule": "exact: every interior integer point and integer direction (entries -4..4) of NN(1..2), Zero(2), SOC(2..3) with alpha_max in {1,0.5,0.99} "
+                            "(quick: 15% sample) -- safe/bounded/tight decided by TLC in integer arithmetic; protocol: random exp/power/genpower line searches with the "
+                            "probe log checked against the backtracking protocol and observer membership; composite: random mixed cone lists incl. PSD; shift: symmetric "
+                            "initialisation of random vectors up to 1e21 in magnitude; distinct = distinct exact (point, direction, alpha_max) tuples + protocol/composite events",
+                    "soc_branch_coverage": br, "meta": meta, "samples": sample([e for e in lines if e.get("ev") == "Step"], 2) + [{k: e[k] for k in ("ev", "kind", "alpha_z", "alpha_s")} for e in lines if e.get("ev") == "Backtrack"][:1],
+                    "mc_conestep_states": mc["states"], "exhaustive": bool(meta.get("exhaustive_exact")),
+                    "trusted_base": ["TLC", "observer membership margins (nonsymmetric, PSD)"]}
+    res.assumptions = ["PSD cones of dimension > 2 and tightness for exp/power cones beyond one backtracking factor are covered only through the composite-step events"]
+    return res
